@@ -394,6 +394,12 @@ def namespace(ctx):
                 if 'assign' in s and s['rv']['k'] == 'agg' and (s['rv'].get('adt') or '').endswith('SerializeSchema'):
                     o = origin(s1, s['rv']['ops'][s['rv']['fields'].index('parent_namespace')])
                     ok = 'parent_namespace' in o.fields and o.params() == {1}
+    if s1 is not None and not ok:
+        # or it delegates: serializable_with_namespace(key, self.parent_namespace)
+        for bb, t in s1.calls():
+            if strip_generics(cname(t)).endswith('SerializeSchema::serializable_with_namespace') and len(t['args']) == 3:
+                o = origin(s1, t['args'][2])
+                ok = 'parent_namespace' in o.fields and o.params() == {1} and origin(s1, t['args'][0]).params() == {1}
     ctx.ob('NAMESPACE', 'serializable-copies-namespace', ok, short_loc(s1.span) if s1 else None, 'serializable() copies parent_namespace: %s' % ok)
     # the three-way choice when writing a name / a reference compares with the parent namespace
     for nm in ('serialize_name', 'str_for_ref'):
